@@ -36,6 +36,12 @@ pub trait World {
     fn canon(&mut self) -> u64;
 }
 
+/// `KV_DEADLINE_SCALE` (default 1) scales every wall-clock budget of the search (used to take a
+/// shorter look at the thorough tier; a cut search says so in its evidence).
+pub fn deadline_scale() -> f64 {
+    std::env::var("KV_DEADLINE_SCALE").ok().and_then(|v| v.parse::<f64>().ok()).filter(|v| *v > 0.0).unwrap_or(1.0)
+}
+
 #[derive(Clone, Debug)]
 pub struct Opts {
     pub depth: u8,
@@ -185,7 +191,7 @@ fn expand<W: World>(w: &mut W, trace: &mut Vec<W::Op>, remaining: u8, g: &Global
         g.counters.add(C_LEAVES, 1);
         return;
     }
-    if g.start.elapsed().as_secs_f64() > g.opts.deadline_s {
+    if g.start.elapsed().as_secs_f64() > g.opts.deadline_s * deadline_scale() {
         g.counters.set(C_CAPPED, 1);
         return;
     }
